@@ -467,4 +467,173 @@ theorem upgrade_reaches_target (br : BR) (op : Op) (c : Cfg) (w : World) (exp : 
       simp [setReplicas, Int.max_eq_right (Int.le_of_lt hlt)]
   · rfl
 
+/-! ## runs: any number of retries, any fault index at every call, events in between -/
+
+theorem matchCount_batch (br : BR) (b : Int) (w : World) :
+    matchCount { br with currentBatch := b } w = matchCount br w := rfl
+
+/-- **C06 `initialize_single_canary`** — in every run (any sequence of `Initialize` / `UpgradeBatch` /
+    `EnsureBatchPodsReadyAndLabeled` / `Finalize` calls, each with its own fault index, any number of
+    retries, the creation expectation lost / timed out / observed at any point, the Deployment controller
+    catching up in between), as long as the user does not change the stable pod template, at no point
+    are there more active canary Deployments for the current template than one — or than there were at
+    the start.  With `create_guarded`: the plane creates at most one, and only when there is none. -/
+theorem initialize_single_canary (br : BR) (steps : List Step) (w : World) (exp : Exp)
+    (hnd : namesNodup w = true) (hev : ∀ st ∈ steps, st.ev ≠ .newTemplate) :
+    ∀ o ∈ run br w exp steps, matchCount br o.w ≤ max 1 (matchCount br w) := by
+  induction steps generalizing w exp with
+  | nil => intro o ho; cases ho
+  | cons st rest ih =>
+    intro o ho
+    have hndw := (namesNodup_iff w).mp hnd
+    have hnde := applyEvent_nodup br st.ev w exp hndw
+    have hmce := applyEvent_matchCount br st.ev w exp (hev st List.mem_cons_self)
+    have hhead := single_canary { br with currentBatch := st.currentBatch } st.op st.cfg
+      (applyEvent br st.ev w exp).1 (applyEvent br st.ev w exp).2 ((namesNodup_iff _).mpr hnde)
+    unfold singleCanary at hhead
+    have hhead' : matchCount br (step br w exp st).w ≤ max 1 (matchCount br w) := by
+      have := of_decide_eq_true hhead
+      simp only [matchCount_batch] at this
+      rw [hmce] at this
+      exact this
+    simp only [run, List.mem_cons] at ho
+    rcases ho with rfl | ho
+    · exact hhead'
+    · have hndo : namesNodup (step br w exp st).w = true :=
+        (namesNodup_iff _).mpr (call_nodup _ _ _ _ _ hnde)
+      have := ih (step br w exp st).w (step br w exp st).exp hndo
+        (fun s hs => hev s (List.mem_cons_of_mem _ hs)) o ho
+      omega
+
+/-- one call keeps every owned Deployment's replicas under a bound that covers the step's target -/
+theorem call_replicas_bound (br : BR) (op : Op) (c : Cfg) (w : World) (exp : Exp) (B : Int)
+    (hnd : namesNodup w = true) (hB0 : 0 ≤ B)
+    (htgt : ∀ t, target br w = some t → t ≤ B)
+    (h0 : ∀ d ∈ w.deps, d.owner = .this → ∀ r, d.replicas = some r → r ≤ B) :
+    ∀ d ∈ (call br op c w exp).w.deps, d.owner = .this → ∀ r, d.replicas = some r → r ≤ B := by
+  have hndw := (namesNodup_iff w).mp hnd
+  obtain ⟨id, f, ids, hf, hwhich, hids, hworld⟩ := call_shape br op c w exp
+  have hp : Pres f := which_pres hwhich
+  have hafter := shape_after hf hworld
+  intro d' hd' hown r hr
+  rcases mem_after hf hndw hafter hd' with ⟨d, hd, heff, _⟩ | ⟨_, ⟨_, _, st, _, hnew, _⟩, _, _, _⟩
+  · have hrep : d'.replicas = (if d.name = id then f d else d).replicas := by
+      rcases eff_some heff with h | ⟨_, h⟩ <;> rw [h]
+    have hown' : d.owner = .this := by rw [← (eff_pres hp heff).1]; exact hown
+    rw [hrep] at hr
+    rcases hwhich with rfl | ⟨_, _, rfl⟩ | ⟨_, _, rfl⟩ | ⟨_, cd, t, cur, st, rfl, rfl, _, _, _, htg, _, _, _⟩
+    · exact h0 d hd hown' r (by simpa using hr)
+    · exact h0 d hd hown' r (by split at hr <;> exact hr)
+    · exact h0 d hd hown' r (by split at hr <;> exact hr)
+    · split at hr
+      · simp only [setReplicas, Option.some.injEq] at hr
+        rw [← hr]; exact htgt t htg
+      · exact h0 d hd hown' r hr
+  · obtain ⟨tp, _, rfl⟩ := newCanary_some hnew
+    simp only [Option.some.injEq] at hr
+    omega
+
+/-- **C01 `canary_replicas_within_step`, over runs** — let `R` be the replicas of the (un-owned) stable
+    Deployment and `B ≥ 0` a bound on `CalculateBatchReplicas(R, batches[i])` for every batch index `i` the
+    run upgrades.  If no Deployment owned by the BatchRelease starts above `B`, none is ever above `B`, at
+    any point of any run — whatever the faults, retries and events.  (The plane writes nothing but the
+    step's target into `spec.replicas`, see `canary_replicas_within_step`.) -/
+theorem canary_replicas_bounded (br : BR) (steps : List Step) (w : World) (exp : Exp) (R B : Int)
+    (hnd : namesNodup w = true) (hB0 : 0 ≤ B)
+    (hst : ∃ st, w.find br.key = some st ∧ st.owner ≠ .this ∧ st.replicas = some R)
+    (hB : ∀ st ∈ steps, ∀ e, batchEntry { br with currentBatch := st.currentBatch } = some e →
+        calcBatchReplicas R e ≤ B)
+    (h0 : ∀ d ∈ w.deps, d.owner = .this → ∀ r, d.replicas = some r → r ≤ B) :
+    ∀ o ∈ run br w exp steps, ∀ d ∈ o.w.deps, d.owner = .this → ∀ r, d.replicas = some r → r ≤ B := by
+  induction steps generalizing w exp with
+  | nil => intro o ho; cases ho
+  | cons s rest ih =>
+    intro o ho
+    have hndw := (namesNodup_iff w).mp hnd
+    obtain ⟨st, hfind, hsto, hstr⟩ := hst
+    -- the world after the event
+    have hnde := applyEvent_nodup br s.ev w exp hndw
+    have hste : ∃ st', (applyEvent br s.ev w exp).1.find br.key = some st' ∧ st'.owner ≠ .this ∧ st'.replicas = some R := by
+      cases s.ev
+      · exact ⟨st, hfind, hsto, hstr⟩
+      · exact ⟨st, hfind, hsto, hstr⟩
+      · refine ⟨observed st, ?_, hsto, hstr⟩
+        show ({ deps := w.deps.map observed } : World).find br.key = _
+        have := find_map_aux w.deps observed br.key (fun _ => rfl)
+        unfold World.find at hfind ⊢
+        rw [this, hfind]; rfl
+      · show ∃ st', (w.modify br.key _).find br.key = some st' ∧ _
+        rw [find_modify _ _ _ _ (by intro d; rfl), hfind]
+        simp only [Option.map_some, (find_some hfind).2, if_true]
+        exact ⟨_, rfl, hsto, hstr⟩
+    have h0e : ∀ d ∈ (applyEvent br s.ev w exp).1.deps, d.owner = .this → ∀ r, d.replicas = some r → r ≤ B := by
+      cases s.ev
+      · exact h0
+      · exact h0
+      · intro d hd
+        obtain ⟨d0, hd0, rfl⟩ := List.mem_map.mp hd
+        exact h0 d0 hd0
+      · intro d hd
+        obtain ⟨d0, hd0, rfl⟩ := List.mem_map.mp hd
+        intro ho r hr
+        split at ho <;> split at hr <;> exact h0 d0 hd0 ho r hr
+    obtain ⟨st', hfind', hsto', hstr'⟩ := hste
+    have htgt : ∀ t, target { br with currentBatch := s.currentBatch } (applyEvent br s.ev w exp).1 = some t → t ≤ B := by
+      intro t ht
+      unfold target at ht
+      simp only [] at ht
+      rw [hfind'] at ht
+      simp only [hstr'] at ht
+      cases he : batchEntry { br with currentBatch := s.currentBatch } with
+      | none => rw [he] at ht; cases ht
+      | some e =>
+        rw [he] at ht
+        simp only [Option.some.injEq] at ht
+        rw [← ht]
+        exact hB s List.mem_cons_self e he
+    have hhead := call_replicas_bound { br with currentBatch := s.currentBatch } s.op s.cfg
+      (applyEvent br s.ev w exp).1 (applyEvent br s.ev w exp).2 B ((namesNodup_iff _).mpr hnde) hB0 htgt h0e
+    simp only [run, List.mem_cons] at ho
+    rcases ho with rfl | ho
+    · exact hhead
+    · have hndo : namesNodup (step br w exp s).w = true :=
+        (namesNodup_iff _).mpr (call_nodup _ _ _ _ _ hnde)
+      -- the stable Deployment is still there, un-owned, with the same replicas
+      have hframe := stable_frame { br with currentBatch := s.currentBatch } s.op s.cfg
+        (applyEvent br s.ev w exp).1 (applyEvent br s.ev w exp).2 ((namesNodup_iff _).mpr hnde)
+      have hsto : ∃ st2, (step br w exp s).w.find br.key = some st2 ∧ st2.owner ≠ .this ∧ st2.replicas = some R := by
+        unfold stableFrame at hframe
+        simp only [] at hframe
+        rw [hfind'] at hframe
+        dsimp only at hframe
+        cases hf2 : (step br w exp s).w.find br.key with
+        | none =>
+          have hf2' : (call { br with currentBatch := s.currentBatch } s.op s.cfg
+              (applyEvent br s.ev w exp).1 (applyEvent br s.ev w exp).2).w.find br.key = none := hf2
+          rw [hf2'] at hframe
+          simp at hframe
+          exact absurd hframe hsto'
+        | some st2 =>
+          have hf2' : (call { br with currentBatch := s.currentBatch } s.op s.cfg
+              (applyEvent br s.ev w exp).1 (applyEvent br s.ev w exp).2).w.find br.key = some st2 := hf2
+          rw [hf2'] at hframe
+          simp only [Bool.or_eq_true, Bool.and_eq_true, decide_eq_true_eq] at hframe
+          rcases hframe with h | ⟨⟨h, _⟩, _⟩
+          · exact absurd h hsto'
+          · refine ⟨st2, rfl, ?_, ?_⟩
+            · have : st2.owner = st'.owner := by rw [← h]
+              rw [this]; exact hsto'
+            · have : st2.replicas = st'.replicas := by rw [← h]
+              rw [this]; exact hstr'
+      exact ih (step br w exp s).w (step br w exp s).exp hndo hsto
+        (fun x hx => hB x (List.mem_cons_of_mem _ hx)) hhead o ho
+
+/-- **C01** corollary — canary Deployments never have more replicas than the stable Deployment. -/
+theorem canary_never_above_stable (br : BR) (steps : List Step) (w : World) (exp : Exp) (R : Int)
+    (hnd : namesNodup w = true) (hR : 0 ≤ R)
+    (hst : ∃ st, w.find br.key = some st ∧ st.owner ≠ .this ∧ st.replicas = some R)
+    (h0 : ∀ d ∈ w.deps, d.owner = .this → ∀ r, d.replicas = some r → r ≤ R) :
+    ∀ o ∈ run br w exp steps, ∀ d ∈ o.w.deps, d.owner = .this → ∀ r, d.replicas = some r → r ≤ R :=
+  canary_replicas_bounded br steps w exp R R hnd hR hst (fun _ _ e _ => calcBatch_le R e hR) h0
+
 end RV.Props.CtlCanary
